@@ -327,6 +327,26 @@ type runState struct {
 	cancelAt  int   // call cancelFn before the k-th call
 	cancelFn  context.CancelFunc
 	delaySeed uint64 // != 0: pseudo-random delays per call
+	// overlap family: pre runs before the k-th call is let through; reads hold rw
+	// shared while they run and are reported to obs before they release it
+	pre func(k int)
+	rw  *sync.RWMutex
+	obs func(kind string, arg any, res any, err error)
+}
+
+// rlock takes the read side of the request's gate (if any) for one storage read.
+func (rs *runState) rlock() func() {
+	if rs == nil || rs.rw == nil {
+		return func() {}
+	}
+	rs.rw.RLock()
+	return rs.rw.RUnlock
+}
+
+func (rs *runState) observe(kind string, arg any, res any, err error) {
+	if rs != nil && rs.obs != nil {
+		rs.obs(kind, arg, res, err)
+	}
 }
 
 type rsKeyT struct{}
@@ -368,7 +388,11 @@ func (w *storeWrap) enter(ctx context.Context, kind string) (*runState, int, err
 	cf := rs.cancelFn
 	doCancel := rs.cancelAt != 0 && k == rs.cancelAt
 	seed := rs.delaySeed
+	pre := rs.pre
 	rs.mu.Unlock()
+	if pre != nil {
+		pre(k)
+	}
 	if doCancel && cf != nil {
 		cf()
 	}
@@ -402,7 +426,9 @@ func (w *storeWrap) ExistsRelationTuples(ctx context.Context, q *relationtuple.R
 		rs.leave(k, "exists", qstr(q), "", ferr)
 		return false, ferr
 	}
+	defer rs.rlock()()
 	ok, err := w.Manager.ExistsRelationTuples(ctx, q)
+	rs.observe("exists", q, ok, err)
 	rs.leave(k, "exists", qstr(q), fmt.Sprint(ok), err)
 	return ok, err
 }
@@ -431,7 +457,9 @@ func (t travWrap) TraverseSubjectSetExpansion(ctx context.Context, tuple *relati
 		rs.leave(k, "expand", tuple.String(), "", ferr)
 		return nil, ferr
 	}
+	defer rs.rlock()()
 	res, err := t.w.tr.TraverseSubjectSetExpansion(ctx, tuple)
+	rs.observe("expand", tuple, res, err)
 	rs.leave(k, "expand", tuple.String(), fmt.Sprint(len(res)), err)
 	return res, err
 }
